@@ -18,6 +18,13 @@
 (* whose body is expanded (PageStore's reference RefResolve), whatever was   *)
 (* written at the call site, at depth 1 and 2 and when the template is       *)
 (* reached through frame:expandTemplate{title = ...}.                        *)
+(* Family "holes" (round 7): argument vectors whose numeric keys leave HOLES  *)
+(* (explicit numeric names beside positional arguments in every order, no 1,  *)
+(* names 0 / 00 / -1 that stay strings) x the WAY a module reads a frame's    *)
+(* arguments (index by number, index by string, getArgument, ipairs, pairs,   *)
+(* argumentPairs, next; in several orders - reading is pure) x the frame that *)
+(* is read (the module's own, the parent, a frame made by newChild) x depth.  *)
+(* Every read is a view of ONE argument map (HView).                          *)
 EXTENDS Transclusion, Json
 
 CONSTANT Universe
@@ -133,7 +140,104 @@ RouteCasesOf(via) == { [fam |-> "route", depth |-> d, via |-> via, route |-> r, 
                         frag |-> <<Txt(<<"t">>)>>, s1 |-> <<"e">>, s2 |-> <<"e">>] :
                       d \in 1..2, r \in Routes, a1 \in RV(via), a2 \in RV2(via) }
 RouteCases == RouteCasesOf(TRUE) \cup RouteCasesOf(FALSE)
-Cases == ArgCases \cup RouteCases
+Cases0 == ArgCases \cup RouteCases
+
+(* ---------------- family "holes": argument maps with holes x the way they are read ---------------- *)
+\* One element of a vector is a positional argument (name <<>>) or a named one.  Numeric names leave holes
+\* in the numbering; "0", "00", "-1" look numeric but are not positive decimal numerals and stay strings.
+HNamesQ == { <<"1">>, <<"2">>, <<"3">>, <<"5">>, <<"0">>, <<"x">> }
+HNamesT == HNamesQ \cup { <<"4">>, <<"0", "0">>, <<"-", "1">> }
+HNames == IF Universe = "Q" THEN HNamesQ ELSE HNamesT
+\* the value of the i-th written argument: pairwise distinct, one with outer blanks (kept when positional, trimmed
+\* when named), one produced by a nested call
+HVal == << <<Txt(<<"p">>)>>, <<Txt(<<"SP", "q", "SP">>)>>, <<Call("Sp", <<>>)>>, <<Txt(<<"s">>)>> >>
+HShapes == UNION {[1..n -> HNames \cup {<<>>}] : n \in 1..3}
+           \cup (IF Universe = "Q" THEN {} ELSE [1..4 -> {<<>>, <<"2">>, <<"4">>, <<"x">>}])
+HVec(f) == [i \in DOMAIN f |-> IF f[i] = <<>> THEN Pos(HVal[i]) ELSE Named(f[i], HVal[i])]
+\* the call that hands a vector on unchanged from inside a template: the same shape, every value {{{key}}}
+RECURSIVE HFwdFrom(_, _, _)
+HFwdFrom(vec, i, pos) ==
+  IF i > Len(vec) THEN <<>>
+  ELSE IF vec[i].named
+       THEN <<[named |-> TRUE, key |-> vec[i].key, val |-> <<Par(vec[i].key[1].s)>>]>> \o HFwdFrom(vec, i + 1, pos)
+       ELSE <<Pos(<<Par(<<NumAtoms[pos]>>)>>)>> \o HFwdFrom(vec, i + 1, pos + 1)
+HFwd(vec) == HFwdFrom(vec, 1, 1)
+\* the ways of reading, and the orders in which one module function applies them to a frame
+HReaders == {"num", "str", "get", "ipairs", "pairs", "apairs", "next"}
+\* (a frame is fresh in every invocation: the FIRST read of an order meets arguments nothing has touched yet, the later
+\* ones meet what earlier reads left behind; quick: indexing / pairs / argumentPairs first, thorough: every reader first)
+HOrdersQ == { <<"num", "str", "get", "ipairs", "pairs", "apairs", "next">>,
+              <<"pairs", "apairs", "next", "ipairs", "num", "str", "get", "pairs">>,
+              <<"apairs", "get", "ipairs", "next", "str", "num", "pairs">> }
+HOrdersT == HOrdersQ \cup { <<"ipairs", "pairs", "num", "pairs", "str", "apairs", "get", "next">>,
+                            <<"next", "get", "pairs", "str", "apairs", "num", "ipairs", "next">>,
+                            <<"get", "next", "apairs", "ipairs", "pairs", "str", "num">>,
+                            <<"str", "ipairs", "apairs", "pairs", "next", "get", "num", "apairs">> }
+HOrders == IF Universe = "Q" THEN HOrdersQ ELSE HOrdersT
+\* depth 0: {{#invoke:M|h|vec}} on the page; depth 1: the page calls {{Hw|vec}}, Hw holds {{#invoke:M|h|fwd}};
+\* depth 2: the page calls {{Hv|vec}}, Hv holds {{Hw|fwd}}
+HoleCases == { [fam |-> "holes", depth |-> d, vec |-> HVec(f), fwd |-> HFwd(HVec(f)), reads |-> o] :
+               d \in 0..2, f \in HShapes, o \in HOrders }
+\* bindings of the frame the module is invoked with / of its parent frame
+HTopB(c) == Bind(c.vec, 1, 1, TopFrame, Lib, {})
+HParentB(c) == IF c.depth = 1 THEN HTopB(c) ELSE Bind(c.fwd, 1, 1, Frame(HTopB(c)), Lib, {})
+HOwnB(c) == IF c.depth = 0 THEN HTopB(c) ELSE Bind(c.fwd, 1, 1, Frame(HParentB(c)), Lib, {})
+\* the argument MAP of a binding list: later duplicates win; a key that is a positive decimal numeral is an integer key
+HDigits == {"0", "1", "2", "3", "4", "5", "6", "7", "8", "9"}
+IntKeyed(k) == Len(k) > 0 /\ (\A i \in 1..Len(k) : k[i] \in HDigits) /\ (\E i \in 1..Len(k) : k[i] # "0")
+RECURSIVE LastWins(_, _)
+LastWins(b, i) ==
+  IF i > Len(b) THEN <<>>
+  ELSE (IF \E j \in (i + 1)..Len(b) : b[j].key = b[i].key THEN <<>>
+        ELSE <<[key |-> b[i].key, int |-> IntKeyed(b[i].key), val |-> b[i].val]>>) \o LastWins(b, i + 1)
+ArgMapOf(b) == LastWins(b, 1)
+HLookup(m, k) == IF \E i \in 1..Len(m) : m[i].key = k
+                 THEN [has |-> TRUE, val |-> m[CHOOSE i \in 1..Len(m) : m[i].key = k].val]
+                 ELSE [has |-> FALSE, val |-> <<>>]
+\* the probes of the indexing reads: numbers 1..HNumMax, and strings (a numeral string denotes the integer key)
+HNumMax == 5
+HStrProbes == << <<"1">>, <<"2">>, <<"3">>, <<"4">>, <<"5">>, <<"0">>, <<"0", "0">>, <<"-", "1">>, <<"x">>, <<"y">> >>
+\* ipairs: the values at 1, 2, ... up to the first hole (Lua semantics; NOT all numeric keys)
+RECURSIVE HPrefix(_, _)
+HPrefix(m, n) == IF n <= Len(NumAtoms) /\ HLookup(m, <<NumAtoms[n]>>).has
+                 THEN <<HLookup(m, <<NumAtoms[n]>>).val>> \o HPrefix(m, n + 1) ELSE <<>>
+\* every way of reading is a view of the one map:  pairs / argumentPairs / next yield exactly `map` (as a SET; the order
+\* is not specified), args[n] / args["n"] / getArgument(n) answer `num` / `str`, ipairs yields `seq`
+HView(b) == LET m == ArgMapOf(b) IN
+  [map |-> m,
+   num |-> [n \in 1..HNumMax |-> HLookup(m, <<NumAtoms[n]>>)],
+   str |-> [i \in 1..Len(HStrProbes) |-> HLookup(m, HStrProbes[i])],
+   seq |-> HPrefix(m, 1)]
+HExpected(c) ==
+  [own |-> HView(HOwnB(c)),
+   hasParent |-> c.depth > 0,
+   parent |-> IF c.depth > 0 THEN HView(HParentB(c)) ELSE <<>>,
+   \* frame:newChild{args = a table holding the frame's own arguments}: the view `own` again (beyond the statement)
+   childIsOwn |-> TRUE]
+\* laws.  The map does not depend on the depth (the same shape forwarded with {{{key}}} values) ...
+HolesDepthIndependent(c) == ArgMapOf(HOwnB(c)) = ArgMapOf(HOwnB([c EXCEPT !.depth = 0]))
+                            /\ (c.depth > 0 => ArgMapOf(HParentB(c)) = ArgMapOf(HOwnB(c)))
+\* ... and is the reference argument map of ArgViews.tla (C14) of the written argument texts
+AV == INSTANCE ArgViews WITH Dev <- {}
+HFlat(vec) == [i \in 1..Len(vec) |-> (IF vec[i].named THEN vec[i].key[1].s \o <<"=">> ELSE <<>>) \o Expand(vec[i].val, Lib, {})]
+HAsAV(m) == {IF m[i].int THEN AV!IntKey(AV!NumVal(m[i].key), m[i].val) ELSE AV!StrKey(m[i].key, m[i].val) : i \in 1..Len(m)}
+HolesAgreeWithArgViews(c) == AV!ArgMap(HFlat(c.vec)) = HAsAV(ArgMapOf(HTopB(c)))
+                             /\ AV!ViewLua(HFlat(c.vec)) = AV!ArgMap(HFlat(c.vec))
+\* ... and the universe is not vacuous: it holds vectors with a numeric key behind a hole, without any key 1, with a
+\* numeric name filling / overriding a position, and with string keys that look numeric
+HHasHole(m) == \E i \in 1..Len(m) : m[i].int /\ Len(HPrefix(m, 1)) < AV!NumVal(m[i].key)
+HolesUniverseLaws ==
+  LET maps == {ArgMapOf(HTopB(c)) : c \in {x \in HoleCases : x.depth = 0}} IN
+  /\ \E m \in maps : HHasHole(m) /\ Len(HPrefix(m, 1)) > 0
+  /\ \E m \in maps : HHasHole(m) /\ Len(HPrefix(m, 1)) = 0
+  /\ \E m \in maps : ~HHasHole(m) /\ Len(HPrefix(m, 1)) = 3
+  /\ \E m \in maps : \E i \in 1..Len(m) : ~m[i].int /\ m[i].key = <<"0">>
+  /\ \E c \in HoleCases : Len(ArgMapOf(HTopB(c))) < Len(c.vec)
+  /\ \A o \in HOrders : {o[i] : i \in 1..Len(o)} = HReaders
+  /\ {"num", "pairs", "apairs"} \subseteq {o[1] : o \in HOrders}
+  /\ (Universe # "Q" => {o[1] : o \in HOrders} = HReaders)
+
+Cases == Cases0 \cup HoleCases
 
 VARIABLE case
 Init == case \in Cases
@@ -175,7 +279,7 @@ Expected(c) ==
 
 \* laws: the frame construction is independent of the wrapper depth (arguments are
 \* forwarded verbatim / trimmed exactly once)
-DepthIndependent == LuaArgs(case) = LuaArgs([case EXCEPT !.depth = 0])
+DepthIndependent == case.fam # "holes" => LuaArgs(case) = LuaArgs([case EXCEPT !.depth = 0])
 \* the title is a function of the page reached, not of the spelling: the code path (candidate titles,
 \* one redirect hop) and the reference agree on every route, the supplier is a stored non-redirect page
 \* holding the wrapper body, and two routes reaching the same page see the same title
@@ -184,10 +288,14 @@ TitleLaws ==
   /\ \A r \in Routes : \E row \in Store : row.title = Supplier(r).title /\ row.ns = Supplier(r).ns
                                            /\ row.redirect = PS!NoRedirect /\ row.body = "W1"
   /\ CanonRoute \in Routes /\ Supplier(CanonRoute).title = TWrapBox
-ViaIndependent == case.via => LuaArgs(case) = LuaArgs([case EXCEPT !.via = FALSE])
-Emit == PrintT(<<"CASE", ToJson([case |-> case, exp |-> Expected(case)])>>)
-GenInv == DepthIndependent /\ ViaIndependent /\ Emit
+ViaIndependent == (case.fam # "holes" /\ case.via) => LuaArgs(case) = LuaArgs([case EXCEPT !.via = FALSE])
+Emit == PrintT(<<"CASE", ToJson([case |-> case, exp |-> IF case.fam = "holes" THEN HExpected(case) ELSE Expected(case)])>>)
+HoleLaws == case.fam = "holes" => HolesDepthIndependent(case) /\ HolesAgreeWithArgViews(case)
+GenInv == DepthIndependent /\ ViaIndependent /\ HoleLaws /\ Emit
 \* the store and the route universe, printed once (the harness installs exactly these pages)
 ASSUME TitleLaws
+ASSUME HolesUniverseLaws
+ASSUME PrintT(<<"HOLES", ToJson([nummax |-> HNumMax, strprobes |-> [i \in 1..Len(HStrProbes) |-> [probe |-> HStrProbes[i], int |-> IntKeyed(HStrProbes[i])]],
+                                   orders |-> HOrders, cases |-> Cardinality(HoleCases), shapes |-> Cardinality(HShapes)])>>)
 ASSUME PrintT(<<"STORE", ToJson([adds |-> Adds, routes |-> Cardinality(Routes), unreachable |-> Cardinality(AllRoutes \ Routes)])>>)
 =============================================================================
